@@ -228,6 +228,10 @@ static void vp_env_init(void)
         TC(k).rank_info_words = 1;
         TC(k).rank_sent_to_storage_offset = offsetof(vtask_t, sent);
         TC(k).local_task_mempool.thread_mempools = TMP; TC(k).local_task_mempool.nb_thread_mempools = 1;
+        /* a task object that is not (yet) created is still a well-formed, flow-less task: CBMC also unfolds
+         * the real code on branches that a later assumption excludes, and must not meet NULL classes there */
+        VT(k).t.super.task_class = &TC(k).super; VT(k).t.super.taskpool = &TP.super; VT(k).t.rank = 0;
+        VT(k).t.super.super.super.obj_reference_count = 1;
     }
     /* tiles as parsec_dtd_tile_of() creates them for a locally owned datum */
     for(int i = 0; i < NTILE; i++) {
